@@ -1465,7 +1465,7 @@ func main() {
 		},
 		Cases: func(tier string) int {
 			if tier == "thorough" {
-				return 2400
+				return 1200
 			}
 			return 320
 		},
